@@ -280,6 +280,13 @@ func (p *c02) world(r *core.Rand, sched c02Schedule) (*c02World, error) {
 	// different templates
 	w.srcs["mlists1"] = c02Marker("mlists1") + "{{ 5 in range(1, 60) ? 'Y' : 'N' }}{{ 105 in range(1, 60) ? 'Y' : 'N' }}{{ 'k7' in ks ? 'Y' : 'N' }}{{ 'q7' not in ks ? 'Y' : 'N' }}{% for i in range(1, 3) %}{{ i * 20 in range(1, 70) ? 'y' : 'n' }}{% endfor %}{{ v }}"
 	w.srcs["mlists2"] = c02Marker("mlists2") + "{{ 5 in range(100, 160) ? 'Y' : 'N' }}{{ 105 in range(100, 160) ? 'Y' : 'N' }}{{ 'k7' in qs ? 'Y' : 'N' }}{{ 'q7' not in qs ? 'Y' : 'N' }}{% for i in range(1, 3) %}{{ i * 20 in range(30, 99) ? 'y' : 'n' }}{% endfor %}{{ v }}"
+	// one date under different format strings, a different one in every template (anything the date machinery remembers
+	// about a format belongs to that format)
+	for i, f := range []string{"Y-m-d", "H:i", "D, d M Y", "d/m/y H:i:s", "Y"} {
+		n := fmt.Sprintf("dates%d", i)
+		w.srcs[n] = c02Marker(n) + "{{ '2021-03-04 15:06:07'|date('" + f + "') }}|{% for i in [1, 2] %}{{ '2021-03-04 15:06:07'|date('" + f + "') }};{% endfor %}{{ v }}"
+		w.entries = append(w.entries, n, n)
+	}
 	w.entries = append(w.entries, "stateful", "stateful", "mlists1", "mlists2", "mlists1", "mlists2")
 	sort.Strings(w.entries)
 	w.regNames = []string{"reg0", "reg1"}
